@@ -1163,4 +1163,151 @@ theorem straight_compoundAll : ∀ b, StraightLine b → CompoundAll b := by
   | ifO => intro h; exact h.elim
   | forO => intro h; exact h.elim
 
+/-! ### `snax-to-func` preserves barrier separation -/
+
+theorem filter_split {α : Type} (q : α → Bool) : ∀ (l : List α) (a' : List α) (x : α) (r' : List α),
+    l.filter q = a' ++ x :: r' → ∃ a r, l = a ++ x :: r ∧ a.filter q = a' ∧ r.filter q = r' := by
+  intro l
+  induction l with
+  | nil => intro a' x r' h; simp at h
+  | cons z zs ih =>
+    intro a' x r' h
+    cases hq : q z with
+    | false =>
+      rw [List.filter_cons_of_neg (by simp [hq])] at h
+      obtain ⟨a, r, h1, h2, h3⟩ := ih _ _ _ h
+      exact ⟨z :: a, r, by rw [h1]; rfl, by rw [List.filter_cons_of_neg (by simp [hq]), h2], h3⟩
+    | true =>
+      rw [List.filter_cons_of_pos hq] at h
+      cases a' with
+      | nil =>
+        simp only [List.nil_append, List.cons.injEq] at h
+        exact ⟨[], zs, by rw [h.1]; rfl, rfl, h.2⟩
+      | cons b bs =>
+        simp only [List.cons_append, List.cons.injEq] at h
+        obtain ⟨a, r, h1, h2, h3⟩ := ih _ _ _ h.2
+        exact ⟨z :: a, r, by rw [h1]; rfl, by rw [List.filter_cons_of_pos hq, h2, h.1], h3⟩
+
+/-- Erasing operations that are not barriers keeps every barrier separation
+(generic in what is erased: `keep` is any predicate on operations). -/
+theorem separated_filter (keep : Leaf → Bool) (t : List Ev) (h : Separated t) :
+    Separated (t.filter (fun e => match e with | .sync => true | .op l => keep l)) := by
+  intro a' m' c' e1 e2 ht hc
+  obtain ⟨a, r, h1, _, h3⟩ := filter_split _ t a' (Ev.op e1) _ ht
+  obtain ⟨m, c, h4, h5, _⟩ := filter_split _ r m' (Ev.op e2) _ h3
+  have hs := h a m c e1 e2 (by rw [h1, h4]) hc
+  rw [← h5]
+  exact List.mem_filter.mpr ⟨hs, rfl⟩
+
+theorem separated_lowerT (t : List Ev) (h : Separated t) : Separated (lowerT t) := by
+  have := separated_filter (fun l => !l.dealloc) t h
+  have he : (fun e => match e with | Ev.sync => true | Ev.op l => !l.dealloc) = keptEv := by
+    funext e; cases e <;> rfl
+  rw [he] at this
+  exact this
+
+theorem lowerT_append (a b : List Ev) : lowerT (a ++ b) = lowerT a ++ lowerT b := by
+  simp [lowerT]
+
+theorem lowerT_ySync (ys : Bool) : lowerT (ySync ys) = ySync ys := by
+  cases ys <;> simp [lowerT, ySync, keptEv]
+
+/-- every execution of the lowered code is the lowering of an execution of the code before the pass
+(same branch outcomes, same trip counts) -/
+theorem lower_run : ∀ (p : Blk) (t' : List Ev), CompoundKept p → Run (lowerB p) t' →
+    ∃ t, Run p t ∧ t' = lowerT t := by
+  intro p
+  induction p with
+  | nil =>
+    intro t' _ hr
+    simp only [lowerB, Run] at hr
+    exact ⟨[], by simp [Run], by simp [hr, lowerT]⟩
+  | leaf l r ih =>
+    intro t' hk hr
+    simp only [lowerB] at hr
+    cases hd : l.dealloc with
+    | true =>
+      rw [hd] at hr
+      simp only [if_true] at hr
+      obtain ⟨t, h1, h2⟩ := ih _ hk hr
+      exact ⟨Ev.op l :: t, by simp only [Run]; exact ⟨t, h1, rfl⟩, by
+        rw [h2]; simp [lowerT, keptEv, hd]⟩
+    | false =>
+      rw [hd] at hr
+      simp only [Bool.false_eq_true, if_false, Run] at hr
+      obtain ⟨t0, hr0, rfl⟩ := hr
+      obtain ⟨t, h1, h2⟩ := ih _ hk hr0
+      exact ⟨Ev.op l :: t, by simp only [Run]; exact ⟨t, h1, rfl⟩, by
+        rw [h2]; simp [lowerT, keptEv, hd]⟩
+  | sync r ih =>
+    intro t' hk hr
+    simp only [lowerB, Run] at hr
+    obtain ⟨t0, hr0, rfl⟩ := hr
+    obtain ⟨t, h1, h2⟩ := ih _ hk hr0
+    exact ⟨Ev.sync :: t, by simp only [Run]; exact ⟨t, h1, rfl⟩, by
+      rw [h2]; simp only [lowerT]; exact (List.filter_cons_of_pos (by rfl)).symm⟩
+  | ifO l a e r iha ihe ihr =>
+    intro t' hk hr
+    simp only [CompoundKept] at hk
+    simp only [lowerB, Run] at hr
+    obtain ⟨t1, t2, hbr, hr2, rfl⟩ := hr
+    obtain ⟨u2, g2, e2⟩ := ihr _ hk.2.2.2 hr2
+    rcases hbr with hb | hb
+    · obtain ⟨u1, g1, e1⟩ := iha _ hk.2.1 hb
+      exact ⟨Ev.op l :: (u1 ++ u2), by simp only [Run]; exact ⟨u1, u2, Or.inl g1, g2, rfl⟩, by
+        rw [e1, e2]; simp [lowerT, keptEv, hk.1]⟩
+    · obtain ⟨u1, g1, e1⟩ := ihe _ hk.2.2.1 hb
+      exact ⟨Ev.op l :: (u1 ++ u2), by simp only [Run]; exact ⟨u1, u2, Or.inr g1, g2, rfl⟩, by
+        rw [e1, e2]; simp [lowerT, keptEv, hk.1]⟩
+  | forO l b ys y r ihb ihr =>
+    intro t' hk hr
+    simp only [CompoundKept] at hk
+    simp only [lowerB, Run] at hr
+    obtain ⟨t1, t2, hst, hr2, rfl⟩ := hr
+    obtain ⟨u2, g2, e2⟩ := ihr _ hk.2.2.2 hr2
+    have hstar : ∃ u1, Star (fun s => ∃ s', Run b s' ∧ s = s' ++ (ySync ys ++ [Ev.op y])) u1 ∧ t1 = lowerT u1 := by
+      induction hst with
+      | nil => exact ⟨[], Star.nil, by simp [lowerT]⟩
+      | cons ha _ ih2 =>
+        obtain ⟨s', hs', rfl⟩ := ha
+        obtain ⟨w, gw, ew⟩ := ihb _ hk.2.2.1 hs'
+        obtain ⟨u1, gu, eu⟩ := ih2
+        refine ⟨(w ++ (ySync ys ++ [Ev.op y])) ++ u1, Star.cons ⟨w, gw, rfl⟩ gu, ?_⟩
+        rw [lowerT_append, lowerT_append, lowerT_append, lowerT_ySync, ← ew, ← eu]
+        simp [lowerT, keptEv, hk.2.1]
+    obtain ⟨u1, g1, e1⟩ := hstar
+    exact ⟨Ev.op l :: (u1 ++ u2), by simp only [Run]; exact ⟨u1, u2, g1, g2, rfl⟩, by
+      rw [e1, e2]; simp [lowerT, keptEv, hk.1]⟩
+
+theorem compoundKept_withSync {h : Bool} {b : Blk} (hk : CompoundKept b) : CompoundKept (withSync h b) := by
+  cases h
+  · simpa [withSync] using hk
+  · simpa [withSync, CompoundKept] using hk
+
+theorem walk_compoundKept (fx : Bool) (all : List Leaf) : ∀ (b : Blk) (cx : Ctx) (P : List Nat),
+    CompoundKept b → CompoundKept (walkB fx all cx b P).1 := by
+  intro b
+  induction b with
+  | nil => intro cx P h; simpa [walkB] using h
+  | leaf l r ih =>
+    intro cx P h
+    simp only [walkB]
+    exact compoundKept_withSync (by simp only [CompoundKept] at h ⊢; exact ih _ _ h)
+  | sync r ih =>
+    intro cx P h
+    simp only [walkB, CompoundKept] at h ⊢
+    exact ih _ _ h
+  | ifO l a e r iha ihe ihr =>
+    intro cx P h
+    simp only [walkB]
+    apply compoundKept_withSync
+    simp only [CompoundKept] at h ⊢
+    exact ⟨h.1, iha _ _ h.2.1, ihe _ _ h.2.2.1, ihr _ _ h.2.2.2⟩
+  | forO l b ys y r ihb ihr =>
+    intro cx P h
+    simp only [walkB]
+    apply compoundKept_withSync
+    simp only [CompoundKept] at h ⊢
+    exact ⟨h.1, h.2.1, ihb _ _ h.2.2.1, ihr _ _ h.2.2.2⟩
+
 end SnaxVerif.Cores
